@@ -24,7 +24,7 @@ def sh(cmd, cwd=None, timeout=3600):
 
 def main():
     d, rid = sys.argv[1], sys.argv[2]
-    wt, vdir = "/tmp/rf_wt", "/tmp/rf_verif"
+    wt, vdir = os.environ.get("REFAC_WT", "/tmp/rf_wt"), os.environ.get("REFAC_VDIR", "/tmp/rf_verif")
     if not os.path.exists(wt):
         c, o = sh(f"git -C /repo worktree add --detach {wt} HEAD"); assert c == 0, o
     sh("git checkout -- . && git clean -fdq tests", cwd=wt)
